@@ -143,7 +143,11 @@ class Model:
             else:
                 par = self.nodes[tgt]["parents"]
                 for c in self.children(tgt):
-                    self.nodes[c]["parents"] = [par[0] if p == tgt else p for p in self.nodes[c]["parents"]]
+                    new = []
+                    for p in [par[0] if p == tgt else p for p in self.nodes[c]["parents"]]:
+                        if p not in new:  # a mux input that coincides with another input after the splice counts once
+                            new.append(p)
+                    self.nodes[c]["parents"] = new
             self.nodes.pop(tgt)
             self.order.remove(tgt)
         elif k == "set_sys_phases":
@@ -311,6 +315,12 @@ BASES = {
     "two-src-del": [{"op": "new", "name": "S1"}, {"op": "add_source", "name": "S2"}, {"op": "add_comp", "parents": ["S1"], "kind": "PLoad", "name": "L1"},
                     {"op": "add_comp", "parents": ["S2"], "kind": "Converter", "name": "C"}, {"op": "add_comp", "parents": ["C"], "kind": "ILoad", "name": "L2"},
                     {"op": "del_comp", "target": "S1", "del_childs": True}],
+    # rustworkx re-uses the most recently freed node index: the first source is deleted, the mux lands on index 0
+    "first-source-deleted-mux-at-0": [{"op": "new", "name": "S1"}, {"op": "add_source", "name": "S2"},
+                                      {"op": "add_comp", "parents": ["S2"], "kind": "Converter", "name": "C"},
+                                      {"op": "del_comp", "target": "S1", "del_childs": True},
+                                      {"op": "add_comp", "parents": ["S2", "C"], "kind": "PMux", "name": "M", "as_list": True},
+                                      {"op": "add_comp", "parents": ["M"], "kind": "ILoad", "name": "L"}],
     "mux-renamed-input": [{"op": "new", "name": "S1"}, {"op": "add_source", "name": "S2"},
                           {"op": "add_comp", "parents": ["S1", "S2"], "kind": "PMux", "name": "M"}, {"op": "add_comp", "parents": ["M"], "kind": "PLoad", "name": "L"},
                           {"op": "change_comp", "target": "S2", "kind": "Source", "name": "S2b", "variant": 1}],
